@@ -26,7 +26,7 @@ ASSUMPTIONS = [
     "adequacy rule and envelopes calibrated on the tree (make_grid(30,20) d4 vs (40,30) d5: <=4e-4; (20,15) d3: <=5e-3; linear mode d4: <=1.5e-2)",
     "geometric grids are not adequate above x~0.5 and are not generated for the refinement clause",
 ]
-BUDGET = {"quick": {"examples": 1600, "wall": 560, "min_evaluations": 300}, "thorough": {"examples": 8000, "wall": 3400, "min_evaluations": 2000}}
+BUDGET = {"quick": {"examples": 1600, "wall": 560, "min_evaluations": 300}, "thorough": {"examples": 8000, "wall": 2400, "min_evaluations": 2000}}
 MANDATORY = {t: ["nontrivial", "clause:refine", "clause:node", "class:fine", "class:coarse", "mode:linear", "sv:on", "pto:2", "scheme:massive"] for t in ("quick", "thorough")}
 SHRINK = {"quick": False, "thorough": True}
 
